@@ -319,10 +319,27 @@ def history(case, ctx, rng, tmp):
             ms = ModelSaver(1, folder, "ep_{}.pt", save_initial=True, metadata=md)
             try:
                 ctx.lib("ModelSaver.on_train_start", ms.on_train_start, st, tags=tags)
+                ctx.count("modelsaver_saves")
+                check_file(ctx, os.path.join(folder, "ep_initial.pt"), snap(m), md_before, tags, wit)
                 for ep in (1, 2, 3):
                     ctx.lib("ModelSaver.on_epoch_end", ms.on_epoch_end, st, ep, tags=dict(tags, epoch=ep))
                     ctx.count("modelsaver_saves")
                     check_file(ctx, os.path.join(folder, f"ep_{ep}.pt"), snap(m), md_before, tags, wit)
+                # a second run into the same folder after the model moved on (training resumed, or another experiment
+                # re-using the folder): every file written again holds the state and metadata at THAT time
+                am2, ph2 = gen.draw_model(rng, m["kind"], st.num_visible, st.num_hidden, getattr(st, "num_aux", None) or 1, scales=[0.3, 1.0])
+                gen.set_params(st.rbm_am, am2)
+                if ph2 is not None:
+                    gen.set_params(st.rbm_ph, ph2)
+                md2 = {"run": "ms-second", "n": 4}
+                ms2 = ModelSaver(1, folder, "ep_{}.pt", save_initial=True, metadata=md2) if step % 2 else ms
+                ms2.metadata = md2
+                ctx.lib("ModelSaver.on_train_start(second run, same folder)", ms2.on_train_start, st, tags=tags)
+                check_file(ctx, os.path.join(folder, "ep_initial.pt"), snap(m), md2, dict(tags, rerun=True), wit)
+                ctx.lib("ModelSaver.on_epoch_end(second run, same folder)", ms2.on_epoch_end, st, 2, tags=dict(tags, epoch=2))
+                check_file(ctx, os.path.join(folder, "ep_2.pt"), snap(m), md2, dict(tags, rerun=True), wit)
+                ctx.count("modelsaver_saves", 2)
+                ctx.count("modelsaver_second_runs_same_folder")
             finally:
                 if not md_equal(md, md_before):
                     ctx.violation("save-changed-metadata", f"ModelSaver's metadata dict was modified by saving (keys now {sorted(md)})",
